@@ -43,6 +43,11 @@ def run(tier):
     _c_refiners(chk, tier)
     _b_integrate_wrappers(chk)
     _e_wrapper(chk)
+    # compiled event callbacks that are cached must be keyed by everything numba freezes into them
+    from .. import memo
+    memo.check_modules(chk, "C11.b-memo", ["hiten.algorithms.integrators.base", "hiten.algorithms.integrators.rk", "hiten.algorithms.integrators.symplectic",
+                                           "hiten.algorithms.integrators.utils", "hiten.algorithms.poincare.singlehit.backend"], floor=1,
+                       what="hand-rolled caches of compiled event functions")
     return chk
 
 
